@@ -14,10 +14,16 @@ for d in sorted(glob.glob("/verif/seeded/*")):
     mp = os.path.join(d, "meta.json")
     m = json.load(open(mp))
     prop = m["property"]
-    ids = [prop] + [c for c in RELATED.get(prop, [])]
-    for c in (m.get("checks") or {}):
-        if c not in ids:
-            ids.append(c)
+    if os.environ.get("REFRESH_FAST"):
+        # the property's own check plus the checks that reported the change last time
+        ids = [prop] + [c for c in (m.get("detected_by") or []) if c != prop]
+        if any(t in name for t in os.environ.get("REFRESH_SKIP", "").split(",") if t):
+            continue
+    else:
+        ids = [prop] + [c for c in RELATED.get(prop, [])]
+        for c in (m.get("checks") or {}):
+            if c not in ids:
+                ids.append(c)
     D = tempfile.mkdtemp(prefix="seedref.", dir="/tmp")
     try:
         subprocess.check_call(["rsync", "-a", "--exclude", ".git", "--exclude", "__pycache__", "/repo/", D + "/"])
